@@ -83,6 +83,10 @@ def run(chk):
                 a, b = rng.sample(names, 2)
                 attempt("rename:onto-existing", lambda: g0.rename_demes({a: b}), [base, {a: b}],
                         classify=lambda why: "duplicate-name")
+            from props import c15
+            for nm in c15.maps_for(rng, names, False)[-14:]:
+                attempt("rename:any-map", lambda: g0.rename_demes(nm), [base, list(nm.items())],
+                        classify=lambda why: "invalid-or-duplicate-name")
             attempt("rename:non-identifier", lambda: g0.rename_demes({names[0]: rng.choice(["not valid", "1x", ""])}),
                     [base, names[0]], classify=lambda why: "invalid-name")
     for i in range(n):
